@@ -288,7 +288,15 @@ impl Args {
                     ExecutionError::Timeout(timeout, outputs) => {
                         // append outcomes for each testcase that was executed (i.e. all testcase
                         // until and including the one that timed out)
-                        outcomes.extend(outputs.iter().zip(testcases.iter()).map(
+                        count_detached += outputs
+                            .iter()
+                            .filter(|output| output.exit_code == ExitStatus::Detached)
+                            .count();
+                        let executed = outputs
+                            .iter()
+                            .zip(testcases.iter())
+                            .filter(|(output, _)| output.exit_code != ExitStatus::Detached);
+                        outcomes.extend(executed.map(
                             |(output, testcase)| {
                                 let result = if matches!(output.exit_code, ExitStatus::Timeout(_)) {
                                     count_failed += 1;
